@@ -37,8 +37,8 @@ ASSUMPTIONS = [
 EXPECTED_PROBES = ["damage.kept_raw", "edit.emptyprog", "foreign", "foreign.VDMX", "merge.untouched_checked", "edit.reorder", "input.generated", "expat.split_text_node", "reader.short", "reader.text", "reader.path", "bufsize.1", "dump.splitTables", "dump.splitGlyphs", "newline.crlf", "lossless.tables_checked"]
 
 TIERS = {
-    "quick": {"budget_s": 600, "determinism_sample": 10, "n": {"sweep": 1500}, "minimise_s": 40, "max_minimise": 3},
-    "thorough": {"budget_s": 5400, "determinism_sample": 100, "n": {"sweep": 20000}, "minimise_s": 120, "max_minimise": 6},
+    "quick": {"budget_s": 600, "determinism_sample": 10, "n": {"sweep": 1500, "merge": 260}, "minimise_s": 40, "max_minimise": 3},
+    "thorough": {"budget_s": 5400, "determinism_sample": 100, "n": {"sweep": 20000, "merge": 4000}, "minimise_s": 120, "max_minimise": 6},
 }
 
 
@@ -155,6 +155,20 @@ def gen_font(i):
     return _GEN[i]
 
 
+_SIGS = {}
+
+
+def _by_signature():
+    if not _SIGS:
+        for rel in _fonts():
+            try:
+                k = " ".join(sorted(container.tables_of(_raw(rel))))
+            except Exception:
+                continue
+            _SIGS.setdefault(k, []).append(rel)
+    return _SIGS
+
+
 _COMPOSITE_FONTS = []
 
 
@@ -192,7 +206,8 @@ def prepare(ctx):
 
 
 def batches(ctx):
-    return [{"name": "sweep", "n": ctx.opts["cfg"]["n"]["sweep"], "fault_free": True}]
+    n = ctx.opts["cfg"]["n"]
+    return [{"name": "sweep", "n": n["sweep"], "fault_free": True}, {"name": "merge", "n": n.get("merge", 0), "fault_free": True}]
 
 
 def generate(ctx, batch, idx):
@@ -201,6 +216,11 @@ def generate(ctx, batch, idx):
     rel = fonts[idx % len(fonts)] if r.random() < 0.7 else r.choice(fonts)
     if r.random() < 0.12:
         rel = "gen:%d" % r.randrange(N_GENERATED)
+    elif r.random() < 0.2:
+        # a table *set* first, a font second: fonts with an unusual make-up (a CFF master without post, an
+        # AAT-only font, a font that is nothing but bitmaps) are not drowned by the hundreds of look-alikes
+        sig = _by_signature()
+        rel = r.choice(sig[r.choice(sorted(sig))])
     size = len(_raw(rel))
     opts = {}
     if r.random() < 0.25:
@@ -213,7 +233,19 @@ def generate(ctx, batch, idx):
         opts["bitmapGlyphDataFormat"] = r.choice(["raw", "row", "bitwise", "extfile"])
     nl = r.choice(["\n", "\n", "\r\n", "\r"])
     sel = None
-    if r.random() < 0.2:
+    if batch == "merge":
+        # partial dumps of the structural tables (the ones glyph order, glyph count and metrics hang on),
+        # merged onto the font they came from - walked over the table make-ups of the corpus
+        sig = _by_signature()
+        keys = sorted(sig)
+        rel = r.choice(sig[keys[idx % len(keys)]])
+        size = len(_raw(rel))
+        try:
+            have = [t for t in STRUCTURAL if t in container.tables_of(_raw(rel))] or STRUCTURAL
+        except Exception:
+            have = STRUCTURAL
+        sel = ["tables", r.sample(have, min(len(have), r.randint(1, 3))) + ([r.randrange(1 << 16)] if r.random() < 0.4 else [])]
+    elif r.random() < 0.2:
         sel = ["tables", [r.randrange(1 << 16) for _ in range(r.randint(1, 4))]]
     elif r.random() < 0.15:
         sel = ["skipTables", [r.randrange(1 << 16) for _ in range(r.randint(1, 3))]]
@@ -311,6 +343,7 @@ _WS = re.compile(r"\s+")
 _WS_BYTES = bytes(32 if c in (9, 10, 13) else c for c in range(256))
 # tables whose damaged payload does not take the rest of the font down with it (compare C20's findings K3-K7)
 DAMAGEABLE = {"GSUB", "GPOS", "GDEF", "BASE", "MATH", "JSTF", "STAT", "name", "COLR", "CPAL", "kern", "gasp", "meta", "cvt ", "VDMX", "hdmx", "LTSH", "morx", "trak", "feat", "avar", "MVAR", "HVAR"}
+STRUCTURAL = ["CFF ", "CFF2", "post", "cmap", "glyf", "loca", "hmtx", "vmtx", "maxp", "head", "hhea", "name", "OS/2", "GlyphOrder"]
 FREE_TEXT_TABLES = {"name", "meta", "SVG ", "Debg", "TSI1", "TSI3", "TSI5", "TSIV", "TSIJ", "TSIP", "TSIS", "TSID", "TSIB", "TSIC", "ltag"}
 
 
@@ -437,7 +470,7 @@ def _execute(ctx, h, scratch):
             # Gloc is written by its owner (Glat) and has no content of its own; so is loca, but a dump
             # may list it without glyf, and the merged font must then keep the loca it has
             cand = [t for t in tags if t not in ("Gloc",)]
-            sel_tags = set(cand[k % len(cand)] for k in h["select"][1])
+            sel_tags = set(cand[k % len(cand)] if isinstance(k, int) else k for k in h["select"][1] if isinstance(k, int) or k in cand) or {cand[0]}
             # bitmap location tables hold nothing but what their data table's compile puts there (like
             # Gloc/Glat): the pair is dumped, or skipped, together
             for loc_, dat_ in (("CBLC", "CBDT"), ("EBLC", "EBDT"), ("bloc", "bdat"), ("Gloc", "Glat")):
